@@ -88,6 +88,8 @@ def _worker_minimise(prop, packed):
     try:
         v = packed["violations"][0]
         kw = {"where": v.get("where")} if "where" in eng.minimise.__code__.co_varnames else {}
+        if "sig" in eng.minimise.__code__.co_varnames:
+            kw["sig"] = v.get("signature")
         small, spent = eng.minimise(packed["trace"], v["class"], **kw)
         o2 = eng.replay(small)
         vs = [
